@@ -54,6 +54,36 @@ Theorem C28_strip_frozen : forall t, wf_cql t = true ->
 Proof. intros t H. split; [apply strip_to_py; assumption|apply print_to_py]. Qed.
 Print Assumptions C28_strip_frozen.
 
+(* second clause, end to end: for every printed CQL type string (separators "," or ", "; UDT names plain words or double-quoted
+   identifiers with any content free of quote / backslash / newline, several of them in one string), cqltype_to_python
+   (scanner with the non-greedy quoted token + literal_eval) yields the type's hierarchy and printing it back gives the
+   canonical string: the identity for canonical strings, the same string up to the blank after commas otherwise *)
+Theorem C28_cql_roundtrip : forall sep fz t, sep_ok sep -> wf_cql t = true ->
+  cqltype_to_python (cql_name_gen (lit "vector") sep fz t) = Some (to_py fz t) /\
+  option_map python_to_cqltype (cqltype_to_python (cql_name_gen (lit "vector") sep fz t))
+  = Some (cql_name_gen (lit "vector") comma_sp fz t).
+Proof.
+  intros sep fz t Hs Hw. split; [apply parse_cql_name; assumption|].
+  rewrite parse_cql_name by assumption. simpl. rewrite print_to_py. reflexivity.
+Qed.
+Print Assumptions C28_cql_roundtrip.
+
+(* third clause on strings: strip_frozen of a printed name is the same name without any frozen marker *)
+Theorem C28_strip_frozen_string : forall sep t, sep_ok sep -> wf_cql t = true ->
+  strip_frozen (cql_name_gen (lit "vector") sep true t) = Some (cql_name_gen (lit "vector") comma_sp false t).
+Proof. exact strip_frozen_name. Qed.
+Print Assumptions C28_strip_frozen_string.
+
+Example C28_nonvacuous_quoted :
+  let u n := TUdt (lit "ks") n [] [] in
+  let t := TTuple [u (lit """A b"""); TFrozen (TList (TSimple SInt)); u (lit """C, d<>"""); u (lit "plain")] in
+  wf_cql t = true /\ sep_ok comma_sp /\
+  show (cql_name_gen (lit "vector") comma_sp true t)
+    = "frozen<tuple<frozen<""A b"">, frozen<list<int>>, frozen<""C, d<>"">, frozen<plain>>>"%string /\
+  option_map show (strip_frozen (cql_name_gen (lit "vector") comma_sp true t))
+    = Some "tuple<""A b"", list<int>, ""C, d<>"", plain>"%string.
+Proof. vm_compute. repeat split; try reflexivity. right. reflexivity. Qed.
+
 Example C28_nonvacuous :
   let t := TMap (TSimple SInt) (TFrozen (TList (TUdt (lit "ks") (lit "abcd") [lit "f1"; lit "g"]
                                                 [TSimple SText; TReversed (TTuple [TSimple SFloat; TSet (TSimple SUuid)])]))) in
